@@ -3,19 +3,19 @@ package sx
 // redirectTable maps real functions to models written in Go in the zzvrf package (executed
 // symbolically like any other code). Native builds never use the models.
 var redirectTable = map[string]string{
-	"net/textproto.NewConn":                   "ModelTextprotoNewConn",
-	"(*net/textproto.Reader).ReadLine":        "ModelTextprotoReadLine",
-	"(*net/textproto.Reader).ReadDotBytes":    "ModelTextprotoReadDotBytes",
-	"(*net/textproto.Writer).PrintfLine":      "ModelTextprotoPrintfLine",
-	"(*net/textproto.Conn).Close":             "ModelTextprotoClose",
-	"bufio.NewReader":                         "ModelBufioNewReader",
-	"(*bufio.Reader).ReadString":              "ModelBufioReadString",
-	"(*bufio.Reader).Reset":                   "ModelBufioReset",
-	"bufio.NewScanner":                        "ModelBufioNewScanner",
-	"(*bufio.Scanner).Scan":                   "ModelScannerScan",
-	"(*bufio.Scanner).Text":                   "ModelScannerText",
-	"(*bufio.Scanner).Err":                    "ModelScannerErr",
-	"github.com/jhillyerd/enmime/v2.DecodeHeaders":   "ModelEnmimeDecodeHeaders",
+	"net/textproto.NewConn":                           "ModelTextprotoNewConn",
+	"(*net/textproto.Reader).ReadLine":                "ModelTextprotoReadLine",
+	"(*net/textproto.Reader).ReadDotBytes":            "ModelTextprotoReadDotBytes",
+	"(*net/textproto.Writer).PrintfLine":              "ModelTextprotoPrintfLine",
+	"(*net/textproto.Conn).Close":                     "ModelTextprotoClose",
+	"bufio.NewReader":                                 "ModelBufioNewReader",
+	"(*bufio.Reader).ReadString":                      "ModelBufioReadString",
+	"(*bufio.Reader).Reset":                           "ModelBufioReset",
+	"bufio.NewScanner":                                "ModelBufioNewScanner",
+	"(*bufio.Scanner).Scan":                           "ModelScannerScan",
+	"(*bufio.Scanner).Text":                           "ModelScannerText",
+	"(*bufio.Scanner).Err":                            "ModelScannerErr",
+	"github.com/jhillyerd/enmime/v2.DecodeHeaders":    "ModelEnmimeDecodeHeaders",
 	"github.com/jhillyerd/enmime/v2.ParseAddressList": "ModelEnmimeParseAddressList",
 	"(net/textproto.MIMEHeader).Get":                  "ModelMIMEHeaderGet",
 	"net/http.NotFound":                               "ModelHTTPNotFound",
@@ -27,9 +27,9 @@ var redirectTable = map[string]string{
 	"(*encoding/json.Decoder).Decode":                 "ModelJSONDecode",
 	"io.Copy":                                         "ModelIOCopy",
 	"github.com/jhillyerd/enmime/v2.ReadEnvelope":     "ModelEnmimeReadEnvelope",
-	"fmt.Fprint":                              "ModelFprint",
-	"sort.Slice":                              "ModelSortSlice",
-	"github.com/kelseyhightower/envconfig.Process": "ModelEnvconfigProcess",
+	"fmt.Fprint":                                      "ModelFprint",
+	"sort.Slice":                                      "ModelSortSlice",
+	"github.com/kelseyhightower/envconfig.Process":    "ModelEnvconfigProcess",
 }
 
 // InstallRedirects resolves the redirect table against the loaded program.
